@@ -95,6 +95,13 @@ void Exec::op_solve(Client &c) {
 			if (tn == "unknown") probe("c03.nondefinitive_without_reference");   // C03 quantifies over LPs the reference solver classifies (up to 10x10)
 			else violate("C03", cls + ":non-definitive:" + status_name(so.status) + strf(":rv%d", so.rv != 0) + ":truth-" + tn + ":stages-" + stageset, strf("exact solver with default limits returned rv=%d status %s %s; the reference solver finds the LP %s", so.rv, status_name(so.status).c_str(), ladder.c_str(), tn.c_str())); }
 	}
+	// C04: the direct rational simplex, left alone under default limits, arrives at the answer too (a way of driving the library that
+	// never gets to a definitive status does not give "the same" status as the others)
+	if (how != "exact" && !interrupted && o->limits_default && o->m.well_formed() && o->m.moderate() && !empty_lp && (so.rv != 0 || !definitive(so.status))) {
+		const RefResult &t = truth(o->m);
+		if (t.status && t.err.empty()) violate("C04", "plain:non-definitive:" + how + ":" + status_name(so.status) + strf(":rv%d", so.rv != 0) + ":truth-" + status_name(t.status), strf("%s simplex with default limits and no interruption returned rv=%d status %s; the LP is %s [pp%d dp%d sc%d warm%d %s]", how.c_str(), so.rv, status_name(so.status).c_str(), status_name(t.status).c_str(),
+			o->iparam.count(QS_PARAM_PRIMAL_PRICING) ? o->iparam[QS_PARAM_PRIMAL_PRICING] : 0, o->iparam.count(QS_PARAM_DUAL_PRICING) ? o->iparam[QS_PARAM_DUAL_PRICING] : 0, o->iparam.count(QS_PARAM_SIMPLEX_SCALING) ? o->iparam[QS_PARAM_SIMPLEX_SCALING] : -1, warm ? 1 : 0, life_before.c_str()));
+	}
 	// truth on small LPs (C03 for the exact driver under default limits, C04 for every other way of driving)
 	if (so.rv == 0 && definitive(so.status) && o->m.well_formed()) {
 		const RefResult &t = truth(o->m);
